@@ -544,22 +544,21 @@ def run(ctx):
                 "points) + stress rounds")
     ctx.assumptions = ["clear and remove_fully are excluded by the property", "processes only; scheduling at system-call "
                        "granularity (memory-level races are the TSan part)", "index records are far below tokio's 2 MiB buffer"]
-    quick_exh = ["W(k,A)||W(k,B)", "W(k1,A)||W(k2,A)", "W(k,A)||remove(k)", "W(k,A)||remove_hash(A)", "W(k,A)||metadata(k)",
-                 "remove(k)||remove(k)", "write_hash(A)||write_hash(A)", "W(k,A)||exists(A)"]
+    quick_exh = [p["name"] for p in pts if p["name"] not in ("W(k,A)||list", "W(k,A)||W(k,B)||W(k,C)")]
     total_sched = 0
     all_complete = True
     for pt in pts:
         if ctx.quick and pt["name"] not in quick_exh:
             continue
-        cap = 400 if ctx.quick else 5000
+        cap = 500 if ctx.quick else 6000
         done, ninter, complete = explore_exhaustive(ctx, pt, "sync@astd", work, cap)
         total_sched += done
         all_complete = all_complete and complete
         ctx.extra.setdefault("exhaustive", {})[pt["name"]] = {"schedules": done, "distinct_interleavings": ninter, "complete": complete}
     ctx.exhaustive = all_complete
     # random: cold caches in sync mode, warm+cold in async modes
-    nrand_cold = 12 if ctx.quick else 400
-    nrand_async = 8 if ctx.quick else 150
+    nrand_cold = 40 if ctx.quick else 600
+    nrand_async = 20 if ctx.quick else 250
     rand_pts = [p for p in pts if p["name"] in ("W(k,A)||W(k,B)", "W(k1,A)||W(k2,A)", "W(k,A)||read(k)", "W(k,A)||list",
                                                 "W(k,A)||remove_hash(A)", "W(k,A)||W(k,B)||W(k,C)", "remove_hash||read(k)",
                                                 "W(k,A)||remove(k)||metadata(k)")]
@@ -574,7 +573,7 @@ def run(ctx):
     ctx.extra["random_distinct_interleavings"] = ri
     ctx.extra["schedules_exhaustive"] = total_sched
     # stress
-    rounds = 12 if ctx.quick else 300
+    rounds = 25 if ctx.quick else 400
     for rnd in range(rounds):
         stress_round(ctx, rnd, nproc=ctx.rng.randint(6, 12), per_prog=25 if ctx.quick else 40, modes=drv.ALL_MODES)
     ctx.count("stress_rounds", rounds)
